@@ -30,6 +30,10 @@ func init() {
 		Run:         runC16,
 		Configs:     []string{"linux/amd64"},
 		Mutants: []Mutant{
+			{Name: "equal-compares-b-with-itself", File: "go/ast/astutil/util.go", Rule: "R16.7", KeyPart: "CompositeLit::Elts[]-of-a-compared-with-the-same-part-of-b",
+				Old: "\t\tfor i, elt := range a.Elts {\n\t\t\tif !Equal(elt, b.Elts[i]) {", New: "\t\tfor i, elt := range b.Elts {\n\t\t\tif !Equal(elt, b.Elts[i]) {"},
+			{Name: "equal-forgets-a-child", File: "go/ast/astutil/util.go", Rule: "R16.7", KeyPart: "IndexExpr.Index-compared",
+				Old: "\t\treturn Equal(a.X, b.X) && Equal(a.Index, b.Index)\n", New: "\t\treturn Equal(a.X, b.X)\n"},
 			{Name: "conversions-count-as-free-of-side-effects", File: "analysis/code/code.go", Rule: "R16.6", KeyPart: "go/ast.CallExpr::Args-examined-before-a-no-answer",
 				Old: "\t\tif purity == nil {\n\t\t\treturn true\n\t\t}\n\t\tswitch obj := typeutil.Callee(pass.TypesInfo, expr).(type) {", New: "\t\tif purity == nil {\n\t\t\ttv, ok := pass.TypesInfo.Types[expr.Fun]\n\t\t\treturn !ok || !tv.IsType()\n\t\t}\n\t\tswitch obj := typeutil.Callee(pass.TypesInfo, expr).(type) {"},
 			{Name: "slice-bounds-not-examined", File: "analysis/code/code.go", Rule: "R16.6", KeyPart: "SliceExpr",
@@ -602,6 +606,191 @@ func runC16(c *Ctx) {
 		})
 		if n < 8 {
 			c.Undecided("found only %d (clause, operand, result) combinations in MayHaveSideEffects", n)
+		}
+	})
+
+	// R16.7: astutil.Equal decides whether two expressions are "the same" for the
+	// rewrites that merge them (QF1002/QF1003 turn if-chains over one tag into a
+	// switch, S1017). Every recursive comparison must pair a part of a with the
+	// same part of b, and every child of a node kind that can hold an
+	// expression must be compared; otherwise different expressions are merged
+	// and the rewritten code takes another branch.
+	c.Rule("R16.7", func() {
+		c.Floor("R16.7", 30)
+		eq := c.Func("go/ast/astutil", "Equal")
+		if len(eq.Params) != 2 {
+			c.Undecided("astutil.Equal changed its signature")
+		}
+		// root parameter and field path of a value
+		var trace func(v ssa.Value, depth int) (root *ssa.Parameter, path string)
+		trace = func(v ssa.Value, depth int) (*ssa.Parameter, string) {
+			if depth > 12 {
+				return nil, ""
+			}
+			switch x := v.(type) {
+			case *ssa.Parameter:
+				return x, ""
+			case *ssa.UnOp:
+				return trace(x.X, depth+1)
+			case *ssa.FieldAddr:
+				r, p := trace(x.X, depth+1)
+				_, f := FieldOf(x.X.Type(), x.Field)
+				if f != nil {
+					p += "." + f.Name()
+				}
+				return r, p
+			case *ssa.Field:
+				r, p := trace(x.X, depth+1)
+				_, f := FieldOf(x.X.Type(), x.Field)
+				if f != nil {
+					p += "." + f.Name()
+				}
+				return r, p
+			case *ssa.IndexAddr:
+				r, p := trace(x.X, depth+1)
+				return r, p + "[]"
+			case *ssa.Index:
+				r, p := trace(x.X, depth+1)
+				return r, p + "[]"
+			case *ssa.TypeAssert:
+				return trace(x.X, depth+1)
+			case *ssa.Extract:
+				return trace(x.Tuple, depth+1)
+			case *ssa.MakeInterface:
+				return trace(x.X, depth+1)
+			case *ssa.ChangeInterface:
+				return trace(x.X, depth+1)
+			case *ssa.ChangeType:
+				return trace(x.X, depth+1)
+			case *ssa.Phi:
+				// a range loop's element: all edges agree on root and path
+				var r0 *ssa.Parameter
+				p0 := ""
+				for _, e := range x.Edges {
+					r, p := trace(e, depth+1)
+					if r != nil {
+						r0, p0 = r, p
+					}
+				}
+				return r0, p0
+			case *ssa.Next, *ssa.Range:
+				return nil, ""
+			}
+			return nil, ""
+		}
+		a, b := eq.Params[0], eq.Params[1]
+		compared := map[string]map[string]bool{} // node type -> fields compared
+		nPairs := 0
+		clauseOf := func(in ssa.Instruction) string {
+			// the case clause: the concrete type a was asserted to on the way
+			best := ""
+			Instrs(eq, false, func(x ssa.Instruction) {
+				ta, ok := x.(*ssa.TypeAssert)
+				if !ok || !ta.CommaOk || ta.X != ssa.Value(a) {
+					return
+				}
+				succ := CondEdges(eq, func(cond ssa.Value) (bool, bool) {
+					ex, ok := cond.(*ssa.Extract)
+					return ok && ex.Tuple == ssa.Value(ta) && ex.Index == 1, true
+				})
+				if ok, _ := MustPassEdges(eq, in, succ); ok && len(succ) > 0 {
+					best = TypeString(ta.AssertedType)
+				}
+			})
+			return best
+		}
+		note := func(clause, pathA string) {
+			if clause == "" {
+				return
+			}
+			if compared[clause] == nil {
+				compared[clause] = map[string]bool{}
+			}
+			f := strings.TrimPrefix(pathA, ".")
+			if i := strings.IndexAny(f, ".["); i >= 0 {
+				f = f[:i]
+			}
+			compared[clause][f] = true
+		}
+		Instrs(eq, false, func(in ssa.Instruction) {
+			var x, y ssa.Value
+			switch t := in.(type) {
+			case *ssa.Call:
+				callee := t.Call.StaticCallee()
+				if callee == nil || FuncPkgPath(callee) != FuncPkgPath(eq) || len(t.Call.Args) != 2 {
+					return
+				}
+				x, y = t.Call.Args[0], t.Call.Args[1]
+			case *ssa.BinOp:
+				if t.Op != token.EQL && t.Op != token.NEQ {
+					return
+				}
+				x, y = t.X, t.Y
+			default:
+				return
+			}
+			rx, px := trace(x, 0)
+			ry, py := trace(y, 0)
+			if rx == nil || ry == nil || px == "" {
+				return
+			}
+			if rx == b && ry == a {
+				rx, ry, px, py = ry, rx, py, px
+			}
+			nPairs++
+			cl := clauseOf(in)
+			okPair := rx == a && ry == b && px == py
+			c.Check(FuncKey(eq)+"::"+cl+"::"+strings.TrimPrefix(px, ".")+"-of-a-compared-with-the-same-part-of-b", in.Pos(), okPair, "a comparison inside Equal must pair a%s with b%s; it pairs %s%s with %s%s, so two nodes that differ there are called equal", px, px, rx.Name(), px, ry.Name(), py)
+			if okPair {
+				note(cl, px)
+			}
+		})
+		// every child that can hold syntax is compared
+		astPkg := c.Pkgs["go/ast"]
+		if astPkg == nil {
+			c.Undecided("go/ast not loaded")
+		}
+		nodeIface := astPkg.Types.Scope().Lookup("Node").Type().Underlying().(*types.Interface)
+		holdsSyntax := func(t types.Type) bool {
+			if sl, ok := t.Underlying().(*types.Slice); ok {
+				t = sl.Elem()
+			}
+			if types.IsInterface(t) {
+				return types.Implements(t, nodeIface) || t.String() == "go/ast.Expr" || t.String() == "go/ast.Stmt"
+			}
+			return types.Implements(t, nodeIface)
+		}
+		reviewedSkip := map[string]string{
+			"*go/ast.BasicLit.":     "",
+			"*go/ast.CallExpr.":     "",
+			"*go/ast.Field.Doc":     "comments are not part of the expression",
+			"*go/ast.Field.Comment": "comments are not part of the expression",
+			"*go/ast.Field.Tag":     "struct tags do not occur in the expressions Equal is used on (types of conversions and literals are compared by their fields and names)",
+		}
+		for _, cl := range SortedKeys(compared) {
+			tn := strings.TrimPrefix(cl, "*go/ast.")
+			obj, _ := astPkg.Types.Scope().Lookup(tn).(*types.TypeName)
+			if obj == nil {
+				continue
+			}
+			st, ok := obj.Type().Underlying().(*types.Struct)
+			if !ok {
+				continue
+			}
+			for f := range st.Fields() {
+				if !holdsSyntax(f.Type()) {
+					continue
+				}
+				key := cl + "." + f.Name()
+				if why, ok := reviewedSkip[key]; ok {
+					c.CheckTrivial(FuncKey(eq)+"::"+key+"-compared", eq.Pos(), true, "reviewed: %s", why)
+					continue
+				}
+				c.Check(FuncKey(eq)+"::"+key+"-compared", eq.Pos(), compared[cl][f.Name()], "Equal's clause for %s never compares the child %s: two nodes that differ only there are called equal", cl, f.Name())
+			}
+		}
+		if nPairs < 30 {
+			c.Undecided("found only %d pairwise comparisons in astutil.Equal", nPairs)
 		}
 	})
 }
